@@ -1,8 +1,12 @@
 package checks
 
 import (
+	"context"
 	"fmt"
 	"strings"
+	"sync"
+
+	authboss "github.com/volatiletech/authboss/v3"
 
 	"verif/sim"
 	"verif/world"
@@ -10,7 +14,72 @@ import (
 
 // c06Unit: establish remember cookies for the target and a bystander, change the target's
 // password (recovery or programmatic update), then interrogate the system with real requests.
+// passwordBurst: G accounts change their passwords at the same moment (Authboss.UpdatePassword on one
+// instance, real hasher, a locked copying storer), R rounds; after each round every stored hash must
+// verify its own account's new password and nobody else's, nor the previous one. Returns the first
+// discrepancy and the number of hashes checked.
+func passwordBurst(seed int64, G, R int) (string, int) {
+	srv, err := newC20Server(seed, false, false, false)
+	if err != nil {
+		return "", 0
+	}
+	defer srv.close()
+	pid := func(g int) string { return fmt.Sprintf("burst%d@site.test", g) }
+	for g := 0; g < G; g++ {
+		srv.store.Put(&world.User{PID: pid(g), Email: pid(g), Password: sim.Hash4("Initial0!pw"), Confirmed: true})
+	}
+	checked := 0
+	for round := 0; round < R; round++ {
+		pw := func(g int) string { return fmt.Sprintf("R%d-G%d-Burst!pw%s", round, g, strings.Repeat("x", g%7)) }
+		errs := make([]error, G)
+		var wg sync.WaitGroup
+		start := make(chan struct{})
+		for g := 0; g < G; g++ {
+			wg.Add(1)
+			go func(g int) {
+				defer wg.Done()
+				u, err := srv.store.Load(context.Background(), pid(g))
+				if err != nil {
+					errs[g] = err
+					return
+				}
+				<-start
+				errs[g] = srv.ab.UpdatePassword(context.Background(), u.(authboss.AuthableUser), pw(g))
+			}(g)
+		}
+		close(start)
+		wg.Wait()
+		for g := 0; g < G; g++ {
+			if errs[g] != nil {
+				continue // a refused change is judged by the sequential part of the check
+			}
+			u := srv.store.Peek(pid(g))
+			if u == nil {
+				return fmt.Sprintf("account %s vanished", pid(g)), checked
+			}
+			checked++
+			if !sim.BcryptOK(u.Password, pw(g)) {
+				return fmt.Sprintf("after %d accounts changed their passwords at the same moment (round %d) the stored hash of %s does not verify its own new password", G, round, pid(g)), checked
+			}
+			for _, o := range []int{(g + 1) % G, (g + G - 1) % G, (g + G/2) % G} {
+				if o != g && sim.BcryptOK(u.Password, pw(o)) {
+					return fmt.Sprintf("after %d accounts changed their passwords at the same moment (round %d) the stored hash of %s verifies the new password of %s", G, round, pid(g), pid(o)), checked
+				}
+			}
+		}
+	}
+	return "", checked
+}
+
 func c06Unit(c *RunCtx, unit int) {
+	if unit%40 == 0 {
+		// "no other account's password is affected" — also when many accounts change theirs at once
+		if msg, n := passwordBurst(c.Seed*1000+int64(unit), 16, 60); msg != "" {
+			c.Stats.Violations = append(c.Stats.Violations, sim.VioRec{Violation: *vio("C06", "concurrent-changes-cross-talk", "%s", msg), Index: unit})
+		} else {
+			c.Stats.Add("hashes-checked-after-concurrent-changes", n)
+		}
+	}
 	r := Rng(c.Seed, "C06", unit)
 	mods := []string{"auth", "recover", "logout"}
 	rememberLoaded := r.Intn(4) != 0
@@ -336,11 +405,11 @@ func c06Unit(c *RunCtx, unit int) {
 func init() {
 	register(&Check{
 		ID: "C06", Level: "exploration",
-		Rule:  "per unit two rounds: 0-3 remember cookies of the target on as many browsers plus one of a bystander (when the remember module is loaded), then a password change by recovery link or programmatic update (in some units with the remember-token purge failing: a change that still reports success is held to every clause; in others with a login by the OLD password running to completion between two of the change's backend calls) with old/new pairs from {fresh, identical, 1 byte, 71/72/73 bytes, non-ASCII, NUL-containing, policy-violating}; afterwards real requests: every earlier cookie presented from a session-less browser, the bystander's cookie, the spent recovery token again, login with the old and the new password on a clean browser, login of the bystander; plus direct inspection of the stored hash (bcrypt shape, verifies new, not old unless bcrypt-equivalent) and of the diff (only the target's record/token rows). distinct_nontrivial = distinct (route, new-password class, #cookies, remember loaded, login-after-recovery, mode, applied) signatures.",
+		Rule:  "per unit two rounds: 0-3 remember cookies of the target on as many browsers plus one of a bystander (when the remember module is loaded), then a password change by recovery link or programmatic update (in some units with the remember-token purge failing: a change that still reports success is held to every clause; in others with a login by the OLD password running to completion between two of the change's backend calls) with old/new pairs from {fresh, identical, 1 byte, 71/72/73 bytes, non-ASCII, NUL-containing, policy-violating}; afterwards real requests: every earlier cookie presented from a session-less browser, the bystander's cookie, the spent recovery token again, login with the old and the new password on a clean browser, login of the bystander; plus direct inspection of the stored hash (bcrypt shape, verifies new, not old unless bcrypt-equivalent) and of the diff (only the target's record/token rows). Plus, in every 40th unit, a burst on a real instance: 16 accounts change their passwords through Authboss.UpdatePassword at the same moment, 60 rounds; after each round every stored hash verifies its own account's new password and none of its neighbours'. distinct_nontrivial = distinct (route, new-password class, #cookies, remember loaded, login-after-recovery, mode, applied) signatures.",
 		Units: func(t string) int { return tierN(t, 320, 15000) },
 		Run:   c06Unit,
 		Floors: func(t string) map[string]int {
-			return map[string]int{"change-applied:recover": 40, "change-applied:update": 20, "old-cookie-presented": 40, "bystander-cookie-ok": 30, "old-password-tried": 50, "token-replayed": 30, "change-refused:long73": 5}
+			return map[string]int{"change-applied:recover": 40, "change-applied:update": 20, "old-cookie-presented": 40, "bystander-cookie-ok": 30, "old-password-tried": 50, "token-replayed": 30, "change-refused:long73": 5, "hashes-checked-after-concurrent-changes": 1000}
 		},
 		Assumptions: []string{"programmatic UpdatePassword has no policy of its own: only bcrypt's 72-byte limit refuses a value there"},
 	})
